@@ -11,7 +11,7 @@ from _griffe.c3linear import _Dependency, _DependencyList, c3linear_merge
 from _griffe.collections import ModulesCollection
 from _griffe.mixins import GetMembersMixin, ObjectAliasMixin
 from _griffe.models import Alias, Attribute, Class, Function, Module, Object
-from vlib.ob import TIER, cover, fail, obligation, tiered
+from vlib.ob import TIER, cover, fail, obligation, tiered, prop
 from vlib.stubs import plain_error_messages, silence_logging
 
 STUBS = silence_logging() + plain_error_messages()
@@ -67,7 +67,7 @@ def _lists_pre(n1, n2, n3, a1, a2, a3, b1, b2, b3, c1, c2, c3):
 @obligation(
     pid="C07", name="c3_merge", pre=_lists_pre, timeout=tiered(250, 1500),
     shards=lambda: [(f"lengths={i},{j},{k}", None, [dict(n1=i, n2=j, n3=k)]) for i in range(LQ + 1) for j in range(LQ + 1) for k in range(LQ + 1)],
-    drives=[c3linear_merge, _DependencyList.__contains__, _DependencyList.remove, _DependencyList.heads.fget, _DependencyList.exhausted.fget, _Dependency.head.fget, _Dependency.tail.fget],
+    drives=[c3linear_merge, _DependencyList.__contains__, _DependencyList.remove, prop(_DependencyList, "heads"), prop(_DependencyList, "exhausted"), prop(_Dependency, "head"), prop(_Dependency, "tail")],
     bounds={"lists": 3, "items per list": f"0..{LQ}, distinct within a list", "item values": f"1..{MAXV}"},
     value_symbolic=["every list item (ints)"], selectors=["the three list lengths (driver-bound)"], stubs=[],
     must_cover=["merged", "inconsistent"],
@@ -190,7 +190,7 @@ def _mro_shards():
     pre=lambda nb1, nb2, nb3, nb4, b11, b12, b21, b22, b31, b32, b41, b42, via_alias: all(0 <= b < len(BASE_NAMES) for b in (b11, b12, b21, b22, b31, b32, b41, b42))
     and (nb1 >= 1 or b11 == 0) and (nb1 >= 2 or b12 == 0) and (nb2 >= 1 or b21 == 0) and (nb2 >= 2 or b22 == 0) and (nb3 >= 1 or b31 == 0) and (nb3 >= 2 or b32 == 0)
     and (nb4 >= 1 or b41 == 0) and (nb4 >= 2 or b42 == 0) and (TIER == "thorough" or not via_alias or nb1 + nb2 + nb3 + nb4 <= 3),
-    drives=[Class.mro, Class._mro, Class.resolved_bases.fget, c3linear_merge],
+    drives=[Class.mro, Class._mro, prop(Class, "resolved_bases"), c3linear_merge],
     bounds={"classes": NCLS, "bases per class": "0..2, each any of the classes (self and forward references included) or an unloaded name", "variant": "first base reached through an alias in a second module" + tiered(" (quick: only for hierarchies with <= 3 base slots in total)", "")},
     value_symbolic=["which class every base slot names (int the engine case-splits)", "via_alias"], selectors=["number of bases of each class (driver-bound)"],
     stubs=STUBS, must_cover=["linearised", "rejected"],
@@ -225,7 +225,7 @@ def mro(nb1: int, nb2: int, nb3: int, nb4: int, b11: int, b12: int, b21: int, b2
     pid="C07", name="inherited", timeout=tiered(280, 1500),
     shards=lambda: [(f"shape={s},ax={a}", None, [dict(shape=s, ax=a)]) for s in range(4) for a in (False, True)],
     pre=lambda shape, ax, ay, bx, by, cx, cy, dx, dy: 0 <= shape <= 3,
-    drives=[Object.inherited_members.fget, ObjectAliasMixin.all_members.fget, GetMembersMixin.__getitem__, Class.mro],
+    drives=[prop(Object, "inherited_members"), prop(ObjectAliasMixin, "all_members"), GetMembersMixin.__getitem__, Class.mro],
     bounds={"hierarchies": "chain D(C(B(A))) / diamond D(B(A),C(A)) / D(B,C) unrelated / D(C(A),B(A)) mirrored diamond", "member names": "x, y", "placement": "every subset of {A,B,C,D} x {x,y}"},
     value_symbolic=["presence of x and of y in each of the four classes (8 booleans)"], selectors=["hierarchy shape (driver-bound)"], stubs=STUBS,
     must_cover=["inherited", "own-wins", "absent"],
